@@ -77,7 +77,14 @@ def _outcomes(ev, inputs, seeded):
     for k, enc in enumerate(inputs):
         if seeded:
             random.seed(1000 + k)
-        res.append(sut.call(ev, M.dec_inputs(enc)))
+        o = sut.call(ev, M.dec_inputs(enc))
+        if o[0] == "unroutable":
+            # what the caller is told when nothing routes is behaviour as well
+            try:
+                ev(**M.dec_inputs(enc))
+            except Exception as e:
+                o = ("unroutable", repr(e.args)[:300])
+        res.append(o)
     return res
 
 
@@ -162,7 +169,7 @@ COMMENT_BODIES = ["source: experiments/checkout_button.pyab", "x.pyab", ".pyab",
                   "%s %d {0} {uid}", "\\", "\\n", "C:\\path\\t.pyab", "pragma: no cover", "<<<<<<< HEAD", "=======", "-----", ">>>>>>> theirs", "||||||| base", "=========================", "<<<<<<<<<<", "#######", "~~~~~~~", "+++++++", "@@ -1,3 +1,4 @@",
                   'return "Z" weighted 100', "}", "{", "} }", "def other {", "salt: 'x'", "splitters: a", "'", '"', "'''", '"""', "é日本",
                   "\t", "", " ", "*", "**", "/", "//", "///", "\\*", "*\\/", "#", "# python", ";", "-- sql", "<!-- x -->", "\x00", "\x7f", "\ufeff",
-                  "x" * 3000]
+                  "x" * 3000] + ["x" * n for k in (10, 12, 13, 14, 16) for n in range(2 ** k - 5, 2 ** k + 3)] + ["é" * 4094, "日" * 8190, " " * 4095]
 
 
 def fixed_cases():
@@ -170,8 +177,9 @@ def fixed_cases():
     pieces of an experiment - as the first thing in the text, the last thing (with and without a final line break), and
     between tokens"""
     I, L = M.ident, M.lit_int
-    prog = M.program("exp", M.if_([(M.cmp_(I("a"), ">=", L("2")), M.ret([(M.lit_str("A"), "1"), (M.lit_str("B"), "3")]))],
-                                  M.ret([(M.lit_str("C"), "1"), (M.lit_str("http://d"), "1")])), salt="s", splitters=["uid"])
+    prog = M.program("exp", M.if_([(M.cmp_(I("a"), ">=", L("2")), M.ret([(M.lit_str("A"), "1"), (M.lit_str("B"), "3")])),
+                                   (M.cmp_(I("a"), ">=", L("1")), M.ret([(M.lit_str("C"), "1"), (M.lit_str("http://d"), "1")]))], None),
+                     salt="s", splitters=["uid"])  # a == 0 is not routed: the error the caller gets is compared too
     toks = [t for _, t in M.program_tokens(prog)]
     base = " ".join(toks)
     inputs = [M.enc_inputs({"uid": "u%d" % i, "a": i % 4}) for i in range(8)]
